@@ -164,6 +164,18 @@ pub fn observe(_ctx: &Ctx, st: &mut Stats, rj: &RJob) {
             return;
         }
     };
+    // "every QR code": a quarter of the symbols are edited through the public API before they are rendered (modules
+    // toggled, the whole symbol inverted, function patterns forced light/dark, type labels rewritten); the picture must
+    // follow the module values of what it is given
+    let mut edit_note = String::new();
+    let qr = if rj.job.seed % 4 == 2 {
+        let (e, what) = adapter::edited_by_hand(&qr, rj.job.seed);
+        st.count("symbols_edited_by_hand_before_rendering", 1);
+        edit_note = format!(" [symbol edited by hand before rendering: {what}]");
+        Box::new(e)
+    } else {
+        qr
+    };
     // every third render is preceded, on the same thread, by a render of the same symbol with MORE shape layers and
     // other colours (result discarded): whatever a renderer keeps between calls must not leak into the next image
     if rj.job.seed % 3 == 0 {
@@ -174,7 +186,7 @@ pub fn observe(_ctx: &Ctx, st: &mut Stats, rj: &RJob) {
         st.count("multi_layer_renders_before_the_measured_one", 1);
     }
     let fail = |st: &mut Stats, kind: &str, detail: String| {
-        st.violation(ID, kind, format!("{detail} [qr {}; spec {}]", cfg.describe(), rj.spec.describe()), rj.to_json());
+        st.violation(ID, kind, format!("{detail} [qr {}; spec {}]{edit_note}", cfg.describe(), rj.spec.describe()), rj.to_json());
     };
     let before = adapter::digest(&qr);
     let ib = rj.spec.image_builder();
